@@ -799,6 +799,11 @@ def _run_history_q(mag, h):
 
 
 # --------------------------------------------------------------------------- run
+def _value_case(c):
+    return any(a["op"] in ("bexp", "mixnum", "strip") and e.get("raise") is False
+               for a, e in zip(c["in"]["ops"], c["exp"]["obs"]))
+
+
 REQUIRED_OPS = {"mixnum", "unitof", "strip", "convert", "back", "via", "scale", "container", "incompatible", "dimensionality", "defunit",
                 "unitless", "derived", "roundtrip", "bexp", "helper", "plain"}
 
@@ -820,7 +825,9 @@ def run(ctx):
     skipped_eq = 0
     seen_ops = set()
     for sl, res in zip(slices, results[2:]):
-        sel = ctx.pick(res.cases, per_slice)
+        # the sample always contains the Backend / mixed-container / strip cases in which a VALUE is demanded (a
+        # dimensionless quantity): most generated quantities carry a dimension and only exercise the refusal
+        sel = ctx.pick(res.cases, per_slice, always=_value_case)
         outs = ctx.pmap(replay_case, sel)
         ctx.cases_replayed += len(sel)
         for case, (bad, obs) in zip(sel, outs):
